@@ -334,6 +334,8 @@ def check(run):
     # weights and sort=True/False: every particle handed over in stripe s lies in stripe s's interval (so the geometry lemma applies
     # to what actually runs), and the grid equals the direct spline evaluation of the wrapped, weighted particles
     tasks = [(run.seed + k, nt, npn, sort, wts) for k, (nt, npn, sort, wts) in enumerate(itertools.product((2, 3, 8), (None, 4), (False, True), (False, True)))]
+    # a single thread accepts any stripe count, odd ones included: every stripe must still be deposited
+    tasks += [(run.seed + 100 + k, 1, npn, False, wts) for k, (npn, wts) in enumerate(itertools.product((1, 2, 3, 5, 7, 8), (False, True)))]
     res = run.pmap(_e2e_worker, tasks)
     for t, why in zip(tasks, res):
         if why:
@@ -341,7 +343,7 @@ def check(run):
                                   dict(seed=t[0], nthread=t[1], npartition=t[2], sort=t[3], weights=t[4]), why)
             break
     run.add_bounded('real tsc_parallel end to end: recorded kernel hand-off + grid vs direct spline evaluation', len(tasks), len(tasks),
-                    '24 x 8 x 6 grid, 400 particles of which a quarter outside [0, box) (periodic images), nthread {2,3,8} x npartition {default, 4} x sort x weights',
+                    '24 x 8 x 6 grid, 400 particles of which a quarter outside [0, box) (periodic images), nthread {2,3,8} x npartition {default, 4} x sort x weights; nthread 1 x npartition {1,2,3,5,7,8} x weights',
                     [dict(nthread=3, npartition=4, sort=True, weights=True)])
     # bounded: deterministic overlap check of every accepted small configuration
     n = 0
